@@ -193,7 +193,7 @@ static void tk_obs(spif_obj_t o, char *b, size_t n)
 
 /* ------------------------------------------------------------------ url */
 static const char *URB[] = { "new()", "from_ptr(\"http://u:p@h:8/p?q\")", "from_ptr(\"h\")", "from_ptr(\"/path\")", "from_ptr(\"zz://host/x\")", "from_ptr(\"\")", "from_ptr(\"http://h:8/p\")+unparse",
-                             "from_ptr(\"h:8\")+set_host(new \"g\")+unparse", "from_ptr(\"h:8/p\")+set_host(new \"g\")", "from_ptr(\"u@h\")", "from_ptr(\"b\")", "from_ptr(\"/pub/f\")+set_port(new \"21\") (a port without a host)" };
+                             "from_ptr(\"h:8\")+set_host(new \"g\")+unparse", "from_ptr(\"h:8/p\")+set_host(new \"g\")", "from_ptr(\"u@h\")", "from_ptr(\"b\")", "from_ptr(\"/pub/f\")+set_port(new \"21\") (a port without a host)", "from_ptr(\"http://h:/p\") (a colon and no port, a scheme the service database knows)" };
 static spif_obj_t ur_build(int i)
 {
     spif_url_t u;
@@ -209,6 +209,7 @@ static spif_obj_t ur_build(int i)
     case 8: u = spif_url_new_from_ptr((spif_charptr_t) "h:8/p"); spif_url_set_host(u, spif_str_new_from_ptr((spif_charptr_t) "g")); return SPIF_OBJ(u);
     case 9: return SPIF_OBJ(spif_url_new_from_ptr((spif_charptr_t) "u@h"));
     case 11: u = spif_url_new_from_ptr((spif_charptr_t) "/pub/f"); spif_url_set_port(u, spif_str_new_from_ptr((spif_charptr_t) "21")); return SPIF_OBJ(u);
+    case 12: return SPIF_OBJ(spif_url_new_from_ptr((spif_charptr_t) "http://h:/p"));
     default: return SPIF_OBJ(spif_url_new_from_ptr((spif_charptr_t) "b"));
     }
 }
@@ -233,7 +234,7 @@ static void ur_obs(spif_obj_t o, char *b, size_t n)
 }
 
 /* ------------------------------------------------------------------ regexp */
-static const char *REB[] = { "from_ptr(\"a.c\")+compile", "from_ptr(\"A.C\")+set_flags(\"i\")+compile", "from_ptr(\"b+\")+compile", "from_ptr(\"a.c\") (not compiled)" };
+static const char *REB[] = { "from_ptr(\"a.c\")+compile", "from_ptr(\"A.C\")+set_flags(\"i\")+compile", "from_ptr(\"b+\")+compile", "from_ptr(\"a.c\") (not compiled)", "from_ptr(\"ab(cd\") (a pattern the engine rejects)" };
 static spif_obj_t re_build(int i)
 {
     spif_regexp_t r;
@@ -241,6 +242,7 @@ static spif_obj_t re_build(int i)
     case 0: r = spif_regexp_new_from_ptr((spif_charptr_t) "a.c"); spif_regexp_compile(r); return SPIF_OBJ(r);
     case 1: r = spif_regexp_new_from_ptr((spif_charptr_t) "A.C"); spif_regexp_set_flags(r, (spif_charptr_t) "i"); spif_regexp_compile(r); return SPIF_OBJ(r);
     case 2: r = spif_regexp_new_from_ptr((spif_charptr_t) "b+"); spif_regexp_compile(r); return SPIF_OBJ(r);
+    case 4: return SPIF_OBJ(spif_regexp_new_from_ptr((spif_charptr_t) "ab(cd"));
     default: return SPIF_OBJ(spif_regexp_new_from_ptr((spif_charptr_t) "a.c"));
     }
 }
